@@ -9,6 +9,11 @@ use crate::util::*;
 
 thread_local! {
     static RESULTS: std::cell::RefCell<Vec<usize>> = std::cell::RefCell::new(Vec::new());
+    static QUIET: std::cell::Cell<bool> = const { std::cell::Cell::new(false) };
+}
+
+macro_rules! outln {
+    ($($arg:tt)*) => { if !QUIET.with(|q| q.get()) { println!($($arg)*); } };
 }
 
 fn push_result(i: usize) {
@@ -44,6 +49,38 @@ fn mk_c(c: &Composer, t: &[&str]) -> Constraint {
     k
 }
 
+/// Replay script lines on an existing composer (used by Circuit impls).
+/// Output of the individual ops is suppressed; errors of fallible components
+/// are propagated.
+pub fn replay(c: &mut Composer, lines: &[String]) -> Result<(), Error> {
+    QUIET.with(|q| q.set(true));
+    RESULTS.with(|r| r.borrow_mut().clear());
+    let mut res = Ok(());
+    for line in lines {
+        if let Err(e) = step_fallible(c, line) {
+            res = Err(e);
+            break;
+        }
+    }
+    QUIET.with(|q| q.set(false));
+    res
+}
+
+pub fn snap_to(c: &Composer, out: &mut String) {
+    use std::fmt::Write;
+    let (gates, wits, pis) = c.verif_snapshot();
+    for (i, (sel, wires)) in gates.iter().enumerate() {
+        let s: Vec<String> = sel.iter().map(hex_of_fr).collect();
+        let _ = writeln!(out, "G {} {} {} {} {} {}", i, s.join(" "), wires[0], wires[1], wires[2], wires[3]);
+    }
+    for (i, v) in pis.iter() {
+        let _ = writeln!(out, "P {} {}", i, hex_of_fr(v));
+    }
+    for (i, v) in wits.iter().enumerate() {
+        let _ = writeln!(out, "W {} {}", i, hex_of_fr(v));
+    }
+}
+
 pub fn snap(c: &Composer) {
     let (gates, wits, pis) = c.verif_snapshot();
     for (i, (sel, wires)) in gates.iter().enumerate() {
@@ -67,20 +104,24 @@ pub fn snap(c: &Composer) {
 }
 
 fn step(c: &mut Composer, line: &str) {
+    let _ = step_fallible(c, line);
+}
+
+fn step_fallible(c: &mut Composer, line: &str) -> Result<(), Error> {
     let t: Vec<&str> = line.split_whitespace().collect();
     if t.is_empty() || t[0] == "#" {
-        return;
+        return Ok(());
     }
     match t[0] {
         "prog" => {
-            println!("== {}", t[1]);
+            outln!("== {}", t[1]);
             RESULTS.with(|r| r.borrow_mut().clear());
             *c = Composer::initialized();
         }
         "new" => *c = Composer::initialized(),
         "w" => {
             let x = c.append_witness(fr_of_hex(t[1]));
-            { push_result(x.index()); println!("R {}", x.index()); }
+            { push_result(x.index()); outln!("R {}", x.index()); }
         }
         "gate" => {
             let k = mk_c(c, &t[1..]);
@@ -89,19 +130,19 @@ fn step(c: &mut Composer, line: &str) {
         "evo" => {
             let k = mk_c(c, &t[1..]);
             match c.append_evaluated_output(k) {
-                Some(x) => { push_result(x.index()); println!("R {}", x.index()) }
-                None => println!("R none"),
+                Some(x) => { push_result(x.index()); outln!("R {}", x.index()) }
+                None => outln!("R none"),
             }
         }
         "gadd" => {
             let k = mk_c(c, &t[1..]);
             let x = c.gate_add(k);
-            { push_result(x.index()); println!("R {}", x.index()); }
+            { push_result(x.index()); outln!("R {}", x.index()); }
         }
         "gmul" => {
             let k = mk_c(c, &t[1..]);
             let x = c.gate_mul(k);
-            { push_result(x.index()); println!("R {}", x.index()); }
+            { push_result(x.index()); outln!("R {}", x.index()); }
         }
         "aeq" => {
             let (a, b) = (w(c, t[1]), w(c, t[2]));
@@ -114,11 +155,11 @@ fn step(c: &mut Composer, line: &str) {
         }
         "const" => {
             let x = c.append_constant(fr_of_hex(t[1]));
-            { push_result(x.index()); println!("R {}", x.index()); }
+            { push_result(x.index()); outln!("R {}", x.index()); }
         }
         "pub" => {
             let x = c.append_public(fr_of_hex(t[1]));
-            { push_result(x.index()); println!("R {}", x.index()); }
+            { push_result(x.index()); outln!("R {}", x.index()); }
         }
         "bool" => {
             let a = w(c, t[1]);
@@ -127,17 +168,17 @@ fn step(c: &mut Composer, line: &str) {
         "sel" => {
             let (bit, a, b) = (w(c, t[1]), w(c, t[2]), w(c, t[3]));
             let x = c.component_select(bit, a, b);
-            { push_result(x.index()); println!("R {}", x.index()); }
+            { push_result(x.index()); outln!("R {}", x.index()); }
         }
         "sel1" => {
             let (bit, v) = (w(c, t[1]), w(c, t[2]));
             let x = c.component_select_one(bit, v);
-            { push_result(x.index()); println!("R {}", x.index()); }
+            { push_result(x.index()); outln!("R {}", x.index()); }
         }
         "sel0" => {
             let (bit, v) = (w(c, t[1]), w(c, t[2]));
             let x = c.component_select_zero(bit, v);
-            { push_result(x.index()); println!("R {}", x.index()); }
+            { push_result(x.index()); outln!("R {}", x.index()); }
         }
         "rbits" => {
             let a = w(c, t[2]);
@@ -155,7 +196,7 @@ fn step(c: &mut Composer, line: &str) {
             let a = w(c, t[2]);
             let x = dispatch::truncate(c, t[1].parse().unwrap(), a)
                 .expect("width");
-            { push_result(x.index()); println!("R {}", x.index()); }
+            { push_result(x.index()); outln!("R {}", x.index()); }
         }
         "decomp" => {
             let a = w(c, t[2]);
@@ -164,19 +205,19 @@ fn step(c: &mut Composer, line: &str) {
             xs.iter().for_each(|x| push_result(x.index()));
             let s: Vec<String> =
                 xs.iter().map(|x| x.index().to_string()).collect();
-            println!("R {}", s.join(" "));
+            outln!("R {}", s.join(" "));
         }
         "land" => {
             let (a, b) = (w(c, t[2]), w(c, t[3]));
             let x = dispatch::logic_and(c, t[1].parse().unwrap(), a, b)
                 .expect("width");
-            { push_result(x.index()); println!("R {}", x.index()); }
+            { push_result(x.index()); outln!("R {}", x.index()); }
         }
         "lxor" => {
             let (a, b) = (w(c, t[2]), w(c, t[3]));
             let x = dispatch::logic_xor(c, t[1].parse().unwrap(), a, b)
                 .expect("width");
-            { push_result(x.index()); println!("R {}", x.index()); }
+            { push_result(x.index()); outln!("R {}", x.index()); }
         }
         "raw" => {
             let mut co = [BlsScalar::zero(); 12];
@@ -192,8 +233,9 @@ fn step(c: &mut Composer, line: &str) {
         }
         "snap" => snap(c),
         "sat" => {}
-        _ => println!("ERR unknown op: {line}"),
+        _ => outln!("ERR unknown op: {line}"),
     }
+    Ok(())
 }
 
 pub fn run(text: &str) {
